@@ -219,7 +219,10 @@ Section Walk.
   Definition walk_fragment (f : fragdef) : list cev :=
     let def := stype s f.(f_typecond) in
     let '(ev, _) := walk_sels walk_fuel def f.(f_sels) (mkWst [] []) in
-    map (fun e => (None, stale_op f, e)) (walk_directives f.(f_dirs) (b "FRAGMENT_DEFINITION") ++ ev ++ [EvFragment f]).
+    (* the directives of the definition itself are only ever walked here, with no current operation:
+       variables in their arguments are never linked to a variable definition *)
+    map (fun e => (None, None, e)) (walk_directives f.(f_dirs) (b "FRAGMENT_DEFINITION"))
+    ++ map (fun e => (None, stale_op f, e)) (ev ++ [EvFragment f]).
 
   Definition walk : list cev :=
     flat_map walk_operation doc.(q_ops) ++ flat_map walk_fragment doc.(q_frags).
